@@ -9,6 +9,16 @@ ALL = ["C%02d" % i for i in range(1, 21)]
 TECH = "contract-based deductive verification: sidecar contracts on the real functions, VCs generated from /repo's ast by pyvc, discharged by z3/cvc5"
 
 CHECKS = {
+    "C10": dict(
+        category="proof", design_ref="DESIGN.md section 8 (C10)",
+        text=("EqMethod.eq is symbolically executed from the current source (loop invariant over the attrs dict) and proved to return exactly the "
+              "relation of the statement: compatible classes and every compare-enabled attribute equal (missing only equals missing, compare=False "
+              "ignored, two bound methods equal iff same function); reflexivity, symmetry, transitivity and deepcopy(x) == x are discharged as "
+              "lemmas over that relation and the proved contract of __deepcopy__ (z3). repr, != and re-construction are covered only by a labelled "
+              "bounded stand-in."),
+        note=("Assumed: A-EQ (== on attribute values is a total equivalence, methods only equal methods), A-DISPATCH (Python's reflected-operand "
+              "rule), A-COPY (copies are ==). Two genuine defects found by these contracts were repaired (eq early return; __deepcopy__ dropping "
+              "own bound methods).")),
     "C06": dict(
         category="proof", design_ref="DESIGN.md section 8 (C06)",
         text=("SequenceMutator / MappingMutator / SetMutator: _extractor, _inserter, add_item, transform_item, remove_item (with the generic "
